@@ -38,10 +38,20 @@ type fsRun struct {
 	viol    []Finding // direct property monitors (independent of the model)
 }
 
-func newFsRun() *fsRun {
+func newFsRun() *fsRun { return newFsRunIn("") }
+
+// newFsRunIn: the store's root is a directory with the given name under a fresh temporary directory
+// ("" = the temporary directory itself).
+func newFsRunIn(rootName string) *fsRun {
 	dir, err := os.MkdirTemp("", "bsfs")
 	if err != nil {
 		fatal("tempdir: %v", err)
+	}
+	if rootName != "" {
+		dir = filepath.Join(dir, rootName)
+		if err := os.Mkdir(dir, 0o700); err != nil {
+			fatal("mkdir: %v", err)
+		}
 	}
 	fr := &fsRun{dir: dir, store: bs.NewFileSystemDataStore(dir)}
 	bs.VerifSetDrawFileName(fr.store, func() string {
@@ -56,7 +66,13 @@ func newFsRun() *fsRun {
 	return fr
 }
 
-func (fr *fsRun) cleanup() { os.RemoveAll(fr.dir) }
+func (fr *fsRun) cleanup() {
+	if strings.HasPrefix(filepath.Base(fr.dir), "bsfs") {
+		os.RemoveAll(fr.dir)
+	} else {
+		os.RemoveAll(filepath.Dir(fr.dir))
+	}
+}
 
 func (fr *fsRun) create(draws []string) {
 	fr.draws = append([]string(nil), draws...)
@@ -175,6 +191,34 @@ func runC16(c *ctx) {
 	n := 800 * c.scale
 	// names ending in the characters of ".dat" / ".tmp" catch suffix handling done by character set
 	namePool := []string{"x", "y", "z", "bloom-1", "bloom-2", "data", "t", "a.d", "x.dat", "tmp.", "dat"}
+	// directed: names and root directories that contain the store's own suffixes. A pointer is tombstoned while
+	// its temp file exists (writer still open / finished) and after publication; nothing of it may remain and
+	// nothing else may be touched - whatever ".dat" / ".tmp" occurrences the path holds besides the extension.
+	for _, root := range []string{"", "bloom.data", "idx.dat.d", "a.tmp", ".dat"} {
+		for _, base := range []string{"x", "x.dat", "a.dat.b", ".dat", "dat.dat", "x.tmp", "y.tmp.dat"} {
+			for variant := 0; variant < 3; variant++ {
+				fr := newFsRunIn(root)
+				fr.create([]string{"keep"})
+				fr.write(0, []byte{9})
+				fr.close(0)
+				fr.create([]string{base})
+				fr.write(1, []byte{1, 2, 3})
+				switch variant {
+				case 1:
+					fr.close(1)
+				case 2:
+					fr.abort(1)
+				}
+				fr.tombstone(base)
+				fr.open("keep")
+				fr.open(base)
+				c.r.Case(true, fmt.Sprint("suffix-names ", root, " ", base, " ", variant))
+				c.r.Hit("fs.suffix-shaped-paths")
+				fr.compare(c, "fs-store-model")
+				fr.cleanup()
+			}
+		}
+	}
 	var freed []string // bases tombstoned after their writer finished: the next CreateFile may draw them again
 	for i := 0; i < n; i++ {
 		fr := newFsRun()
